@@ -52,6 +52,91 @@ Theorem C08_choice : forall (T : Type) (N : Num T),
 Proof. exact (@rc_call_correct). Qed.
 Print Assumptions C08_choice.
 
+(* ---- RandomChoice for EVERY vector the constructor accepts: entries >= 0
+   (checked), sum within the tolerance of 1 - slightly below or above -,
+   zeros anywhere incl. trailing.  No premise on p beyond acceptance; the
+   carrier laws are the eight of C08_choice plus five. ---- *)
+Theorem C08_choice_accepted : forall (T : Type) (N : Num T),
+  (forall a b c, nleb N a b = true -> nleb N b c = true -> nleb N a c = true) ->
+  (forall a b, nltb N a b = true -> nleb N b a = false) ->
+  (forall a x, nleb N (nzero N) a = true -> nleb N (nzero N) x = true ->
+               nleb N a (nadd N a x) = true) ->
+  (forall a x, nleb N (nzero N) a = true -> nleb N x (nzero N) = true ->
+               nleb N (nadd N a x) a = true) ->
+  (forall a b c, nltb N (nzero N) c = true -> nleb N a b = true ->
+                 nleb N (ndiv N a c) (ndiv N b c) = true) ->
+  (forall c, nltb N (nzero N) c = true -> nleb N (none N) (ndiv N c c) = true) ->
+  (forall c, nltb N (nzero N) c = true -> nleb N (ndiv N (nzero N) c) (nzero N) = true) ->
+  (forall a, nleb N (nzero N) a = true -> nleb N a (nzero N) = false ->
+             nltb N (nzero N) a = true) ->
+  nleb N (nzero N) (nzero N) = true ->
+  (forall a, nleb N (nzero N) a = true -> nltb N (nzero N) a = false -> nleb N a (nzero N) = true) ->
+  (forall a x, nleb N (nzero N) a = true -> nleb N (nzero N) x = true ->
+               nleb N x (nadd N a x) = true) ->
+  (forall s, nleb N s (nzero N) = true -> nleb N (none N) (nabs N (nsub N s (none N))) = true) ->
+  (forall a b c, nltb N a b = true -> nleb N b c = true -> nltb N a c = true) ->
+  forall (eps64 epsp : T) (items : list Z) (p : list T) (rc : rchoice)
+         (u : list T) (perm : list nat) (junk : Z),
+  (* the tolerance atol = max(sqrt eps64, sqrt eps_dtype) is below 1 *)
+  nltb N (nmax N (nsqrt N eps64) (nsqrt N epsp)) (none N) = true ->
+  rc_init N eps64 epsp items p = Ok rc ->
+  Forall (fun x => nleb N (nzero N) x = true /\ nltb N x (none N) = true) u ->
+  Permutation perm (seq 0 (length u)) ->
+  exists out,
+    rc_call N rc u (map Z.of_nat perm) junk = Ok out
+    /\ Forall2 (fun ui it =>
+         let k := Z.to_nat (ss_right N (rc_cdf rc) ui) in
+         (k < length p)%nat
+         /\ nth_error items k = Some it
+         /\ (exists x, nth_error p k = Some x /\ nltb N (nzero N) x = true)
+         /\ ((forall i e, (i < k)%nat -> nth_error (rc_cdf rc) i = Some e -> nleb N e ui = true)
+             /\ exists e, nth_error (rc_cdf rc) k = Some e /\ nleb N e ui = false)) u out.
+Proof. exact (@rc_call_accepted). Qed.
+Print Assumptions C08_choice_accepted.
+
+Theorem C08_choice_accepted_Q :
+  forall (eps64 epsp : Q) (items : list Z) (p : list Q) (rc : rchoice)
+         (u : list Q) (perm : list nat) (junk : Z),
+  Qltb (Qminmax.Qmax eps64 epsp) 1 = true ->
+  rc_init QNum eps64 epsp items p = Ok rc ->
+  Forall (fun x => Qle_bool 0 x = true /\ Qltb x 1 = true) u ->
+  Permutation perm (seq 0 (length u)) ->
+  exists out,
+    rc_call QNum rc u (map Z.of_nat perm) junk = Ok out
+    /\ Forall2 (fun ui it =>
+         let k := Z.to_nat (ss_right QNum (rc_cdf rc) ui) in
+         (k < length p)%nat
+         /\ nth_error items k = Some it
+         /\ (exists x, nth_error p k = Some x /\ Qltb 0 x = true)
+         /\ ((forall i e, (i < k)%nat -> nth_error (rc_cdf rc) i = Some e -> Qle_bool e ui = true)
+             /\ exists e, nth_error (rc_cdf rc) k = Some e /\ Qle_bool e ui = false)) u out.
+Proof. exact rc_call_accepted_Q. Qed.
+Print Assumptions C08_choice_accepted_Q.
+
+(* the guard "tolerance below 1" is needed: with atol = 2 the all-zero vector is
+   accepted and the call fails *)
+Example C08_choice_tolerance_refuted :
+  exists (items : list Z) (p u : list Q) (rc : rchoice),
+    rc_init QNum 2%Q 2%Q items p = Ok rc
+    /\ Forall (fun x => Qle_bool 0 x = true /\ Qltb x 1 = true) u
+    /\ rc_call QNum rc u (map Z.of_nat [0%nat]) 0 = Err IndexError.
+Proof.
+  exists [7; 8], [0; 0]%Q, [0]%Q. eexists. split; [vm_compute; reflexivity|].
+  split; [repeat constructor | vm_compute; reflexivity].
+Qed.
+
+(* accepted vectors whose sum is slightly above / below 1, with trailing zeros:
+   a uniform just below 1 still lands on the last POSITIVE entry *)
+Example C08_choice_accepted_example :
+  let eps := (1 # 10000)%Q in
+  rc_run QNum eps eps [10; 11; 12; 13] [1 # 2; (1 # 2) + (1 # 100000); 0; 0]%Q [999999 # 1000000; 0]%Q
+         (map Z.of_nat [1; 0]%nat) 5 = Ok [11; 10]
+  /\ rc_run QNum eps eps [10; 11; 12; 13] [1 # 2; (1 # 2) - (1 # 100000); 0; 0]%Q [999999 # 1000000; 0]%Q
+         (map Z.of_nat [1; 0]%nat) 5 = Ok [11; 10]
+  /\ rc_run QNum eps eps [10; 11; 12; 13] [1 # 2; (1 # 2) + (1 # 1000); 0; 0]%Q [0]%Q [0] 5 = Err ValueError
+  /\ Qltb (Qminmax.Qmax eps eps) 1 = true.
+Proof. cbv zeta. repeat split; vm_compute; reflexivity. Qed.
+
 (* the same statement for the rationals, with no premise on the carrier *)
 Theorem C08_choice_Q :
   forall (eps64 epsp : Q) (items : list Z) (p : list Q) (rc : rchoice)
@@ -149,6 +234,120 @@ Theorem C08_determinism : forall (rng val : Type) (seed_rng : Z -> rng)
     /\ length l = length impls.
 Proof. exact do_trials_seq_spec. Qed.
 Print Assumptions C08_determinism.
+
+(* ---- the caller passes the SAME service as rss and as minimizer_rss ----
+   partial: the pseudo data of this trial is still that of generate_pseudo_data
+   on rss, but rss is left advanced by the minimiser's `reps` requests too *)
+Theorem C08_alias_partial : forall (rng val : Type)
+    (draw : rng -> req -> val * rng) (impl : nat -> option val -> bool * bool)
+    (bdata data : Type)
+    (bkg : rss rng -> bdata * rss rng) (sig : bdata -> rss rng -> data * rss rng)
+    (r : rss rng) (maxrep nfloat : Z),
+  exists reps fit,
+    do_trial_aliased rng val draw impl bdata data bkg sig r maxrep nfloat
+    = Ok (fst (let '(b, r1) := bkg r in sig b r1),
+          rs_seed (iter_state (rss rng) (fun m => snd (rss_draw rng val draw m (RUniform nfloat)))
+                              (Z.to_nat reps) (snd (let '(b, r1) := bkg r in sig b r1))),
+          fit,
+          iter_state (rss rng) (fun m => snd (rss_draw rng val draw m (RUniform nfloat)))
+                     (Z.to_nat reps) (snd (let '(b, r1) := bkg r in sig b r1)))
+    /\ 0 <= reps <= Z.max 0 maxrep.
+Proof. exact do_trial_aliased_spec. Qed.
+Print Assumptions C08_alias_partial.
+
+(* refuted for the aliased call: the state rss is left in - hence the NEXT
+   trial's pseudo data - depends on the minimiser (0 vs. 2 restarts) *)
+Example C08_alias_refuted :
+  exists (impl1 impl2 : nat -> option Z -> bool * bool),
+    let bkg := tm_script [RPoisson 0; RRandom 4] in
+    let sg := fun (_ : list Z) => tm_script [RRandom 2] in
+    let r := rss_new tm_rng (tm_seed []) 5 in
+    match do_trial_aliased tm_rng Z tm_draw impl1 (list Z) (list Z) bkg sg r 10 2,
+          do_trial_aliased tm_rng Z tm_draw impl2 (list Z) (list Z) bkg sg r 10 2 with
+    | Ok (d1, _, _, r1), Ok (d2, _, _, r2) => d1 = d2 /\ tm_log r1 <> tm_log r2
+    | _, _ => False
+    end.
+Proof.
+  exists (fun _ _ => (true, true)), (fun k _ => (Nat.leb 2 k, true)).
+  vm_compute. split; [reflexivity | discriminate].
+Qed.
+
+(* ---- MCMultiDatasetSignalGenerator.generate_signal_events: every request
+   goes to the handed service, in the order [poisson] choice(n) re-draws;
+   each re-draw asks for at least one candidate.  The re-draw loop is unbounded
+   in the code: the statement is about runs that finish (Ok), see the two
+   theorems after it. ---- *)
+Theorem C08_signal_draws : forall (rng val : Type) (draw : rng -> req -> val * rng)
+    (val_int : val -> Z) (sig_groups : val -> list Z) (sig_valid : Z -> val -> Z)
+    (fuel : nat) (poisson : bool) (mean : Z) (r : rss rng) (n : Z) (r' : rss rng),
+  sig_mc rng val draw val_int sig_groups sig_valid fuel poisson mean r = Ok (n, r') ->
+  n = (if poisson then val_int (fst (rss_draw rng val draw r (RPoisson 1))) else mean)
+  /\ exists ks,
+       r' = rc_draws rng val draw (n :: ks)
+                     (if poisson then snd (rss_draw rng val draw r (RPoisson 1)) else r)
+       /\ Forall (fun k => 1 <= k) ks.
+Proof. exact sig_mc_spec. Qed.
+Print Assumptions C08_signal_draws.
+
+Theorem C08_signal_redraw_terminates : forall (rng val : Type) (draw : rng -> req -> val * rng)
+    (sig_valid : Z -> val -> Z) (g : Z),
+  (forall v, 1 <= sig_valid g v) ->
+  forall (fuel : nat) (n ns : Z) (r : rss rng), ns - n <= Z.of_nat fuel ->
+  exists r', redraw_loop rng val draw sig_valid fuel g n ns r = Ok r'.
+Proof. exact redraw_progress. Qed.
+Print Assumptions C08_signal_redraw_terminates.
+
+(* the guard is needed: when no re-draw ever yields a valid event of the group
+   (e.g. the valid field ranges exclude all its candidates) the loop never ends *)
+Theorem C08_signal_redraw_diverges : forall (rng val : Type) (draw : rng -> req -> val * rng)
+    (sig_valid : Z -> val -> Z) (g : Z),
+  (forall v, sig_valid g v = 0) ->
+  forall (fuel : nat) (ns : Z) (r : rss rng), 0 < ns ->
+  redraw_loop rng val draw sig_valid fuel g 0 ns r = Err OutOfFuel.
+Proof. exact redraw_no_progress. Qed.
+Print Assumptions C08_signal_redraw_diverges.
+
+(* C08_trial with this signal generation plugged in (where it finishes) *)
+Theorem C08_trial_signal : forall (rng val : Type) (seed_rng : Z -> rng)
+    (draw : rng -> req -> val * rng) (val_int : val -> Z)
+    (sig_groups : val -> list Z) (sig_valid : Z -> val -> Z)
+    (fuel : nat) (poisson : bool) (mean : Z)
+    (bkg : rss rng -> list Z * rss rng)
+    (impl : nat -> option val -> bool * bool)
+    (r : rss rng) (mr : option (rss rng)) (maxrep nfloat : Z),
+  let sg := fun (b : list Z) (x : rss rng) =>
+              match sig_mc rng val draw val_int sig_groups sig_valid fuel poisson mean x with
+              | Ok (n, x') => (n :: b, x')
+              | Err _ => (b, x)
+              end in
+  exists reps fit,
+    do_trial rng val seed_rng draw impl (list Z) (list Z) bkg sg r mr maxrep nfloat
+    = Ok (fst (let '(b, r1) := bkg r in sg b r1),
+          rs_seed (snd (let '(b, r1) := bkg r in sg b r1)),
+          fit,
+          snd (let '(b, r1) := bkg r in sg b r1),
+          iter_state (rss rng) (fun m => snd (rss_draw rng val draw m (RUniform nfloat)))
+                     (Z.to_nat reps)
+                     (match mr with None => rss_new rng seed_rng (rs_seed r) | Some m => m end))
+    /\ 0 <= reps <= Z.max 0 maxrep /\ (fit = Ok reps \/ fit = Err ValueError).
+Proof.
+  exact (fun rng val seed_rng draw val_int sig_groups sig_valid fuel poisson mean bkg impl r mr maxrep nfloat =>
+           do_trial_spec rng val seed_rng draw (list Z) (list Z) bkg _ impl r mr maxrep nfloat).
+Qed.
+Print Assumptions C08_trial_signal.
+
+(* signal generation on the logging machine: poisson -> 3, choice(3), two groups
+   with 2 and 0 invalid events; the first re-draw of group 0 yields 1 valid
+   event, the second 1 *)
+Example C08_signal_example :
+  let groups := fun v : Z => if v =? 1001 then [2; 0] else [] in
+  let valid := fun (g v : Z) => 1 in
+  let r := rss_new tm_rng (tm_seed [(5, [3; 1001; 1002; 1003])]) 5 in
+  match sig_mc tm_rng Z tm_draw (fun v => v) groups valid 10 true 0 r with
+  | Ok (n, r') => n = 3 /\ tm_log r' = (5, [RPoisson 1; RRandom 3; RRandom 2; RRandom 1])
+  | Err _ => False
+  end.
+Proof. vm_compute. split; reflexivity. Qed.
 
 (* ---- Minimizer.minimize: terminates within max_repetitions, draws exactly
    `reps` times uniform(size=n_floating) from the service it is handed, and
